@@ -68,14 +68,14 @@ impl DynamicTypeItem {
                 None => return None
             };
 
+            if next_item.index == target_type.index {
+                break;
+            }
+
             search_index = match source_type.index > target_type.index {
                 true => search_index - 1,
                 false => search_index + 1
             };
-            
-            if next_item.index == target_type.index {
-                break;
-            }
             
         }
         
@@ -157,7 +157,7 @@ impl DataItem for DynamicTypeItem {
             "NUMBER" => (other.get_underlying_number(), false),
             "DYNAMIC_TYPE" => {
                 let other_dynamic_type: &DynamicTypeItem = other.as_any().downcast_ref::<DynamicTypeItem>()?;
-                let (new_number, _) = DynamicTypeItem::convert(config, other_dynamic_type.get_number(), other_dynamic_type.get_type(), self.1.names[0].clone())?;
+                let (new_number, _) = DynamicTypeItem::convert(config, other_dynamic_type.get_number(), other_dynamic_type.get_type(), self.1.names.first()?.clone())?;
                 (new_number, true)
             },
             "PERCENT" => (do_divition(self.0, 100.0) * other.get_underlying_number(), true),
